@@ -130,7 +130,7 @@ def make_free_edge_class(g, epoch_chi2=False):
     return EpochFreeEdge
 
 
-def structure_graph(P, g, kinds, edges, fixed, symbolic_ids=True, m=None, prefix="", epoch_chi2=False, info="sym", raw_quat=()):
+def structure_graph(P, g, kinds, edges, fixed, symbolic_ids=True, m=None, prefix="", epoch_chi2=False, info="sym", raw_quat=(), shared_pose=False, prelinked=False):
     """kinds: pose type per vertex (list order); edges: list of tuples of vertex indices; fixed: set of vertex indices.
     returns (graph, vertices, edge objects, ids)"""
     np = P.np
@@ -150,7 +150,15 @@ def structure_graph(P, g, kinds, edges, fixed, symbolic_ids=True, m=None, prefix
             return g.PoseSE3(P.reals("%sv%d" % (prefix, i), 3), P.reals("%sv%d_rawq" % (prefix, i), 4))
         return mk_pose(P, g, kinds[i], "%sv%d" % (prefix, i), wrapped=True)
 
-    verts = [g.Vertex(ids[i], _pose(i), fixed=(i in fixed)) for i in range(nv)]
+    if shared_pose:
+        # vertices of the same pose type are all given ONE pose object (Vertex(i, start) in a loop)
+        start = {}
+        for i in range(nv):
+            if kinds[i] not in start:
+                start[kinds[i]] = _pose(i)
+        verts = [g.Vertex(ids[i], start[kinds[i]], fixed=(i in fixed)) for i in range(nv)]
+    else:
+        verts = [g.Vertex(ids[i], _pose(i), fixed=(i in fixed)) for i in range(nv)]
     eobjs = []
     for k, tup in enumerate(edges):
         mm = m if m is not None else 2
@@ -165,6 +173,14 @@ def structure_graph(P, g, kinds, edges, fixed, symbolic_ids=True, m=None, prefix
             vids = [ids[vi] for vi in tup]
         eobjs.append(FreeEdge(vids, om, err, jacs))
         eobjs[-1].k = k
+        if prelinked:
+            # the edge object arrives already linked (it was part of another Graph / built with vertices=...): to FOREIGN
+            # vertex objects that carry the same ids, other poses and other positions in the unknown vector
+            eobjs[-1].vertices = []
+            for a, vi in enumerate(tup):
+                fv = g.Vertex(vids[a], mk_pose(P, g, kinds[vi], "%sforeign%d_%d" % (prefix, k, a), wrapped=True))
+                fv.gradient_index = 7 * (a + 1)
+                eobjs[-1].vertices.append(fv)
     graph = g.Graph(eobjs, verts)
     return graph, verts, eobjs, ids
 
